@@ -472,7 +472,7 @@ def run(ctx, model_ok=True):
     import logging
     import numpy as np
     logging.getLogger().setLevel(logging.ERROR)   # allow_unary / cache-initialisation warnings are expected
-    n = ctx.n(80, 600)
+    n = ctx.n(70, 600)
     made = [make_case(ctx.rng) for _ in range(n)]
     cases = [c for c, _ts in made]
     results = []
